@@ -231,7 +231,10 @@ def finish(prop_id, prop, tier, master_seed, tasks, summaries, skipped, harness_
             harness_errors.append((s.get("error") or "")[-3000:])
             continue
         for key, value in s.get("probes", {}).items():
-            probes[key] += value
+            if key.startswith("max_"):
+                probes[key] = max(probes[key], value)
+            else:
+                probes[key] += value
         for key, value in (s.get("notes") or {}).items():
             if isinstance(value, (int, float)) and not isinstance(value, bool):
                 observed_max[key] = max(observed_max.get(key, value), value)
